@@ -366,6 +366,185 @@ def gen_decls(rng):
     return "%d %d %s" % (rng.randint(0, 4), rng.choice([0, 0, 1, 2]), " ".join(ds))
 
 
+# ---- loader robustness stream (arbitrary / mutated XML) -----------------------------------------------------------
+
+TEXT_NEEDED = ("noreturn", "alloc", "dealloc", "realloc", "use", "call", "prefix", "suffix", "importer")
+
+
+def shipped_pool(rng, n_files):
+    """top-level elements of a few shipped cfg files (python ElementTree)"""
+    import glob, xml.etree.ElementTree as ET
+    files = sorted(glob.glob(os.path.join(core.REPO, "cfg", "*.cfg")))
+    pool = []
+    for f in rng.sample(files, min(n_files, len(files))):
+        try:
+            root = ET.parse(f).getroot()
+        except ET.ParseError:
+            continue
+        kids = list(root)
+        for k in rng.sample(kids, min(40, len(kids))):
+            pool.append(k)
+    return pool
+
+
+def gen_mutated_xml(rng, pool):
+    """(xml text, list of mutation descriptions)"""
+    import copy, xml.etree.ElementTree as ET
+    root = ET.Element("def", {"format": "2"})
+    for k in rng.sample(pool, min(len(pool), rng.randint(1, 6))):
+        root.append(copy.deepcopy(k))
+    f = ET.SubElement(root, "function", {"name": "f"})
+    a = ET.SubElement(f, "arg", {"nr": "1"})
+    ET.SubElement(a, "valid").text = rng.choice(["1:5", "0:", ":8", "1,2", "-3:3"])
+    muts = []
+    for _ in range(rng.choice([0, 1, 1, 1, 2, 3])):
+        elems = list(root.iter())
+        e = rng.choice(elems)
+        k = rng.random()
+        if k < 0.3:
+            cands = [x for x in elems if (x.text or "").strip()]
+            if cands:
+                e = rng.choice(cands)
+                e.text = None
+                muts.append("empty-text:" + e.tag)
+        elif k < 0.6:
+            cands = [x for x in elems if x.attrib]
+            if cands:
+                e = rng.choice(cands)
+                an = rng.choice(sorted(e.attrib))
+                e.set(an, rng.choice(["", "x", "-1", "99999999999999999999", "1.5", " 1", "0x10", "true", "any", "-", "2147483648", "100000000", "7"]))
+                muts.append("attr-value:%s@%s" % (e.tag, an))
+        elif k < 0.7:
+            cands = [x for x in elems if x.attrib]
+            if cands:
+                e = rng.choice(cands)
+                an = rng.choice(sorted(e.attrib))
+                del e.attrib[an]
+                muts.append("attr-removed:%s@%s" % (e.tag, an))
+        elif k < 0.8:
+            if e is not root:
+                old = e.tag
+                e.tag = rng.choice(["arg", "function", "valid", "noreturn", "memory", "alloc", "dealloc", "container", "size", "access", "podtype", "define",
+                                    "reflection", "call", "markup", "exporter", "prefix", "imported", "importer", "minsize", "returnValue", "warn", "smart-pointer",
+                                    "platformtype", "type-checks", "unusedvar", "check", "entrypoint", "zzz"])
+                muts.append("renamed:%s->%s" % (old, e.tag))
+        elif k < 0.9:
+            for par in elems:
+                kids = list(par)
+                if kids and rng.random() < 0.3:
+                    c = rng.choice(kids)
+                    par.remove(c)
+                    muts.append("removed:" + c.tag)
+                    break
+        else:
+            e.text = rng.choice(["x", "-1", "1:", "true", ",", " ", "999999999999999999999999"])
+            muts.append("text:" + e.tag)
+    text = '<?xml version="1.0"?>\n' + ET.tostring(root, encoding="unicode")
+    if rng.random() < 0.12:
+        pos = rng.randint(0, len(text))
+        j = rng.random()
+        if j < 0.4:
+            text = text[:pos]; muts.append("truncated")
+        elif j < 0.7:
+            text = text[:pos] + rng.choice(["<", ">", "&", "\"", "</x>", "<a", "\x01"]) + text[pos:]; muts.append("raw-insert")
+        else:
+            text = text[:pos] + text[pos + rng.randint(1, 30):]; muts.append("raw-delete")
+    return text, muts
+
+
+def run_isolated(exe, ops, timeout=600):
+    """run ops through the harness; a dying harness is a result ('crash:<signal>') for the op it died on"""
+    out = []
+    i = 0
+    while i < len(ops):
+        rc, lines, err = core.run_lines(exe, [], ops[i:], timeout=timeout)
+        out += lines[:len(ops) - i]
+        i = len(out)
+        if i < len(ops):
+            out.append("crash:rc=%s" % rc)
+            i += 1
+    return out
+
+
+def loader_result_class(o):
+    return "ok" if o.startswith("load=0") else ("error-code" if o.startswith("load=") else ("exception" if o.startswith("throw:") else "crash"))
+
+
+def classify_loader(exe, xml_text, result):
+    """known classes of loader crashes, confirmed by a counterfactual run: the crash must disappear when exactly the
+    suspected construct is repaired"""
+    import re as _re
+    if result.startswith("throw:converting"):
+        return "loader-uncaught-strtoint"
+    def still_bad(t):
+        o = run_isolated(exe, ["X %s 3" % hx(t.encode("utf-8", "replace").decode("latin-1"))])[0]
+        return loader_result_class(o) in ("exception", "crash") and not o.startswith("throw:converting")
+    tags = "|".join(TEXT_NEEDED)
+    filled = None
+    try:
+        import xml.etree.ElementTree as ET
+        root = ET.fromstring(xml_text.split("?>", 1)[1] if xml_text.startswith("<?xml") else xml_text)
+        changed = False
+        for e in root.iter():
+            if e.tag in TEXT_NEEDED and not (e.text or "").strip():
+                e.text = "x"; changed = True
+        if changed:
+            filled = ET.tostring(root, encoding="unicode")
+    except Exception:
+        filled = None
+    if filled is None:
+        filled = _re.sub(r"<(%s)((?:\s[^>]*)?)/>" % tags, r"<\1\2>x</\1>", xml_text)
+        filled = _re.sub(r"<(%s)((?:\s[^>]*)?)>\s*</(%s)>" % (tags, tags), r"<\1\2>x</\3>", filled)
+    if filled != xml_text and not still_bad(filled):
+        return "loader-null-text"
+    fixed = _re.sub(r'(<arg\b[^>]*\bindirect=")[^"]*(")', r"\g<1>0\2", xml_text)
+    if fixed != xml_text and not still_bad(fixed):
+        return "loader-direction-indirect-range"
+    both_ = _re.sub(r'(<arg\b[^>]*\bindirect=")[^"]*(")', r"\g<1>0\2", filled)
+    if both_ != xml_text and not still_bad(both_):
+        return "loader-null-text"
+    return None
+
+
+def loader_stream(ctx, res, exe, n):
+    rng = ctx.rng
+    pool = shipped_pool(rng, 8 if ctx.tier != "thorough" else 30)
+    docs, ops = [], []
+    # hand-made corner cases first
+    for t in ['<def><function name="f"><noreturn/></function></def>',
+              '<def><function name="f"><arg nr="x"/></function></def>',
+              '<def><memory><dealloc/></memory></def>',
+              '<def><reflection><call arg="1"/></reflection></def>',
+              '<def><markup ext=".x"><imported><importer/></imported></markup></def>',
+              '<def><podtype name="x" size="q"/></def>',
+              '<def format="3"/>', '<def format="x"/>', '<zzz/>', '', '<def>', '<def><function/></def>', '<def><function name="f"><arg/></function></def>',
+              '<def><function name="f"><arg nr="1"><minsize type="value" value="x"/></arg></function></def>',
+              '<def><function name="f"><arg nr="1"><not-uninit indirect="q"/></arg></function></def>',
+              '<def><function name="f"><warn/></function></def>', '<def><define/></def>', '<def><container/></def>',
+              '<def><container id="c"><size templateParameter="x"/></container></def>',
+              '<def><function name="f"><returnValue container="x"/></function></def>',
+              '<def><function name="f"><arg nr="1" direction="in" indirect="100000000"/></function></def>',
+              '<def><function name="f"><arg nr="1" direction="in" indirect="-100000000"/></function></def>']:
+        docs.append((t, ["hand"]))
+    for _ in range(n):
+        docs.append(gen_mutated_xml(rng, pool))
+    for t, m in docs:
+        ops.append("X %s 3" % hx(t.encode("utf-8", "replace").decode("latin-1")))
+    out = run_isolated(exe, ops)
+    bad = 0
+    for (t, m), op, o in zip(docs, ops, out):
+        cls = loader_result_class(o)
+        res.count("loader:" + cls)
+        res.case("loader|" + op, bool(m) and m != ["hand"] or True, dict(tie="loader-robustness", op="%d bytes, mutations %s" % (len(t), m), impl=o, model="(outside the model)") if bad == 0 and cls in ("exception", "crash") else None)
+        if cls in ("exception", "crash"):
+            bad += 1
+            key = classify_loader(exe, t, o)
+            res.violation("Library::load does not return an error for a well-formed-XML configuration: %s (mutations %s)" % (o[:120], m),
+                          dict(op=op, xml=t if len(t) < 3000 else t[:3000] + "...", impl=o, mutations=m), concrete=True, key=key)
+    res.extra["loader_docs"] = len(docs)
+    res.extra["loader_crashes"] = bad
+
+
 # ---- running -------------------------------------------------------------------------------------------------
 
 def both(ctx, exe, drv, ops):
@@ -465,7 +644,21 @@ def run(ctx, res):
 
     # ---- corpus first -------------------------------------------------------------------------------------------
     corpus = load_corpus()
+    xcorp = [c for c in corpus if c["op"].startswith("X ")]
+    corpus = [c for c in corpus if not c["op"].startswith("X ")]
     cops = [c["op"] for c in corpus]
+    if xcorp:
+        # loader witnesses: implementation only (arbitrary XML is outside the model), each in its own process
+        xout = run_isolated(exe, [c["op"] for c in xcorp])
+        for c, o in zip(xcorp, xout):
+            res.case("corpus|" + c["op"], True, None)
+            bad = loader_result_class(o) in ("exception", "crash")
+            if bad and c.get("key"):
+                res.violation("%s: %s" % (c["note"], o[:100]), dict(op=c["op"], impl=o, note=c["note"]), concrete=True, key=c["key"])
+            elif bad:
+                res.violation("loader crash on a corpus document: %s: %s" % (c["note"], o[:100]), dict(op=c["op"], impl=o), concrete=True, key=None)
+            elif c.get("key"):
+                res.count("witness-gone:" + c["key"])
     if cops:
         impl, model = both(ctx, exe, drv, cops)
         correspond(ctx, res, "corpus", cops, impl, model, lambda op, out: True)
@@ -615,6 +808,7 @@ def run(ctx, res):
         res.violation("cppcheck %s invalidFunctionArg for f(%s) with <valid>%s</valid> but the documented meaning says the value is %s" %
                       ("reports" if got else "does not report", c["lit"], c["valid"], "inside" if c["ref"] else "outside"),
                       dict(cli=True, valid=c["valid"], lit=c["lit"], reported=got), concrete=True, key=None)
+    loader_stream(ctx, res, exe, 250 * scale)
     cli_tables(ctx, res, drv, rng, 24 * scale)
     cli_malformed(ctx, res, rng, 3 if not thorough else 12)
 
@@ -632,14 +826,16 @@ def cli_tables(ctx, res, drv, rng, n):
         nb, nn = rng.random() < 0.5, rng.random() < 0.5
         via_any = rng.random() < 0.25
         fl = ("b" if nb else "") + ("n" if nn else "")
+        # a lone nr="any" entry never matches a call with arguments (matchArguments counts the numbered entries);
+        # nr="variadic" is the declaration that covers "every argument" on its own
         cfg.append('  <function name="g%d"><noreturn>false</noreturn><arg nr="%s">%s%s</arg></function>' %
-                   (k, "any" if via_any else "1", "<not-bool/>" if nb else "", "<not-null/>" if nn else ""))
+                   (k, "variadic" if via_any else "1", "<not-bool/>" if nb else "", "<not-null/>" if nn else ""))
         arg = rng.choice(["a > 1", "a == 2", "!a", "a", "a + 1", "0", "1", "p"])
         body.append("  g%d(%s);" % (k, arg))
         isbool = arg in ("a > 1", "a == 2", "!a")
         isnull = arg == "0"
         expect[k + 2] = (arg, nb and isbool, nn and isnull)
-        ops.append("D 1 0 %s:%s" % ("any" if via_any else "1", fl))
+        ops.append("D 1 0 %s:%s" % ("variadic" if via_any else "1", fl))
     cfg.append("</def>"); body.append("}")
     rc, model, err = core.run_lines(drv, [], ops)
     rc, out, err = cli_run(ctx, "\n".join(cfg) + "\n", "\n".join(body) + "\n", "tables")
